@@ -260,7 +260,7 @@ func (z *E6) DecompressKarabina(x *E6) *E6 {
 	// t1 = g2 * g1
 	t[1].Mul(&x.B0.A2, &x.B0.A1)
 	// t2 = 2 * g4² - 3 * g2 * g1
-	t[2].Square(&x.B1.A1).
+	t[2].Square(&z.B1.A1).
 		Sub(&t[2], &t[1]).
 		Double(&t[2]).
 		Sub(&t[2], &t[1])
